@@ -4,7 +4,7 @@
    every generated container and on the committed reference corpus by the check. *)
 From Coq Require Import List Arith NArith.
 From Jbk Require Import Base.ListExtra Base.Bytes Base.Crc Base.Parser Format.Structs Format.Roundtrips
-  Content.Pack Dir.Layout Dir.Descr Dir.Variants.
+  Content.Pack Dir.Layout Dir.Descr Dir.Variants Manifest.SetLocation Container.Canon.
 Import ListNotations.
 
 Theorem C14_pack_header : forall h r, wf_pack_header h -> p_pack_header (ser_pack_header h ++ r) = Ok (h, r).
@@ -64,6 +64,14 @@ Print Assumptions C14_pack_header.
 Print Assumptions C14_pack_header_is_60_bytes.
 Print Assumptions C14_container_header.
 Print Assumptions C14_pack_locator.
+(* what the canonical-form test of the check establishes for a block of a real file: it is the
+   specified serialisation of the value it decodes to *)
+Theorem C14_canonical_block :
+  forall (A : Type) (p : parser A) (ser : A -> list N) b,
+    canon_block p ser b = true -> exists a, parse_all p b = Ok a /\ ser a = b.
+Proof. intros A p ser b. exact (canon_block_spec p ser b). Qed.
+
+Print Assumptions C14_canonical_block.
 Print Assumptions C14_manifest_header.
 Print Assumptions C14_pack_info.
 Print Assumptions C14_content_pack_header.
